@@ -128,6 +128,8 @@ type Scenario struct {
 	Heap map[string]SV
 	// Params gives values for parameters by name-independent id: recv, p0, p1, ...
 	Params map[string]SV
+	// ByType gives values for parameters by (a suffix of) their type; used where the order is not fixed by an interface.
+	ByType map[string]SV
 	// Call models a call: given the callee id and argument values, optionally return a result.
 	Call func(callee string, args []SV, ev *symEval, st *symState) (SV, bool)
 	// Alts models a call with several possible outcomes (explored exhaustively).
@@ -233,6 +235,12 @@ func evalPaths(fn *ssa.Function, sc *Scenario) ([]Path, error) {
 			args[i] = v
 		} else {
 			args[i] = defaultFor(p.Type(), id)
+			// parameters given by their type (unexported helpers may have their parameters reordered)
+			for suffix, v := range sc.ByType {
+				if strings.HasSuffix(typeStr(p.Type()), suffix) {
+					args[i] = v
+				}
+			}
 		}
 	}
 	ev.root = fn
